@@ -67,7 +67,7 @@ func runC19(r *report.Run) {
 		variants = all
 	}
 	var capCases int64
-	hist, trans, st := asmHistorySearch(depth, variants, func(v asmVariant, al []asmOp, idx []int) (string, string, int) {
+	hist, trans, st := asmHistorySearch(depth, variants, func(v asmVariant, al []asmOp, idx []int) (string, string, int, *asmHistory) {
 		ops := make([]asmOp, len(idx))
 		for i, k := range idx {
 			ops[i] = al[k]
@@ -82,10 +82,10 @@ func runC19(r *report.Run) {
 		for capacity := -1; capacity <= size+1; capacity++ {
 			n++
 			if d := c19History(v, capacity, ops); d != "" {
-				return c19Classify(d), fmt.Sprintf("%+v capacity %d %v: %s", v, capacity, historyNames(al, idx), d), n
+				return c19Classify(d), fmt.Sprintf("%+v capacity %d %v: %s", v, capacity, historyNames(al, idx), d), n, &asmHistory{Variant: v, Ops: historyNames(al, idx), Capacity: capacity}
 			}
 		}
-		return "", "", n
+		return "", "", n, nil
 	}, r, 0)
 	capCases = st
 	r.Set("states", capCases)
